@@ -1609,6 +1609,8 @@ package trzsz
 //@ func TrzszRelay.wrapOutput
 //@   before go:TrzszRelay.handshake assert [C06] trigger != nil && trigger == result_of("trzszDetector.detectTrzsz", 0, 1)
 //@   before TrzszRelay.listenForTunnel assert [C06] trigger != nil && r.trigger == trigger
+//@   loop 1
+//@     invariant detector.uniqueIDMap != nil && detector.relay
 //@ end
 
 //@ # The connecting side of the tunnel: the connection is handed on for adoption only after our greeting
